@@ -33,6 +33,9 @@ IdDoc(r) == [nodes |-> <<[op |-> "DFG", parent |-> 0, signature |-> FnT(r, r)],
                          [op |-> "Input", parent |-> 0, types |-> r], [op |-> "Output", parent |-> 0, types |-> r]>>,
              edges |-> [i \in 1..Len(r) |-> <<<<1, i - 1>>, <<2, i - 1>>>>]]
 FuncV(r) == [v |-> "Function", hugr |-> IdDoc(r), sig |-> FnT(r, r)]
+(* ... whose root DFG declares extension requirements: the constant's type carries them *)
+IdDocR(r, reqs) == [IdDoc(r) EXCEPT !.nodes[1].signature = FnTR(r, r, reqs)]
+FuncDelta(r, reqs) == [v |-> "Function", hugr |-> IdDocR(r, reqs), sig |-> FnTR(r, r, reqs)]
 
 (* the same Python object after its public `body` field was re-assigned: first body over row r1 (and its type
    inspected), then body over row r2.  It denotes FuncV(r2). *)
@@ -83,7 +86,7 @@ InhabitsS(v) ==
          /\ (v.v \in {"Array", "List", "StaticArray"} =>
                /\ \A i \in 1..Len(v.vs) : SameT(TypeOfS(v.vs[i]), v.elem) /\ InhabitsS(v.vs[i])
                /\ v.v = "Array" => TypeOfS(v).args[1] = NatArg(Len(v.vs)))
-    [] v.v = "Function" -> v.sig = FnT(InnerSig(v.hugr.nodes[1])[1], InnerSig(v.hugr.nodes[1])[2])
+    [] v.v = "Function" -> v.sig = FnTR(InnerSig(v.hugr.nodes[1])[1], InnerSig(v.hugr.nodes[1])[2], v.hugr.nodes[1].signature.runtime_reqs)
     [] OTHER -> LET rows == SumRows(TypeOfS(v)) tag == TagOf(v) fs == FieldsOf(v) IN
                 /\ tag >= 0 /\ tag < Len(rows)
                 /\ Len(fs) = Len(rows[tag + 1])
